@@ -378,6 +378,16 @@ def run_input_stream(W, rec):
             rec.violation(f"C09/get_input_stream-unrelated-exception:{type(e).__name__}", f"{e!r}; {case}", case, monitor="exception-type")
             continue
         rec.observe("input_stream_outcome:" + (got_exc or "data"))
+        # history: what the handler of this request does with the stream it was given must not reach a later request
+        # (a `with request.stream:` block closes it; a careless handler writes into the empty fallback stream)
+        try:
+            if got_exc is None and hasattr(st, "getvalue") and (hash((cl, maxlen)) & 1):
+                st.write(b"left behind by an earlier request")
+                st.seek(0)
+            elif got_exc is None:
+                st.close()
+        except Exception:  # noqa: BLE001
+            pass
         short_declared = isinstance(declared, int) and declared > len(body)  # the server blocks until the client gives up, then EOF
         if inp.would_block and not short_declared and not (not safe and declared is None and not terminated):
             rec.violation("C09/read-from-non-terminating-input", f"read past the available data on a non-terminated input ({inp.would_block}x); {case}", case, monitor="would-block")
@@ -425,6 +435,43 @@ def run_input_stream(W, rec):
     rec.sample({"input_stream_cell": {"CONTENT_LENGTH": "٥", "chunked": False, "terminated": False, "max_content_length": 3, "safe_fallback": True}})
 
 
+def nested_streams(W, rec):
+    """Configuration: a limited stream built on top of another one (a middleware reading a prefix through its own
+    LimitedStream over request.stream, a sub-stream per record).  Reads through the inner stream count against the
+    outer one: together they never take more than the outer limit from the underlying stream, in order."""
+    from werkzeug.exceptions import ClientDisconnected, RequestEntityTooLarge
+
+    LimitedStream = W["LimitedStream"]
+    data = b"0123456789NEXT-REQUEST"
+    for L, is_max, inner_limit, k, first in itertools.product((4, 10, 16), (False, True), (2, 10, 30), (1, 3, 100), ("read2", "readall", "readline")):
+        rec.case()
+        rec.observe("nested_stream_cells")
+        rec.nontrivial(("nested", L, is_max, inner_limit, k, first))
+        case = {"part": "nested", "outer_limit": L, "is_max": is_max, "inner_limit": inner_limit, "k": k, "first": first}
+        u = Under(data, k, True, None)
+        outer = LimitedStream(u, L, is_max=is_max)
+        got = b""
+        try:
+            inner = LimitedStream(outer, inner_limit)
+            got += {"read2": lambda: inner.read(2), "readall": lambda: inner.read(), "readline": lambda: inner.readline()}[first]()
+        except (ClientDisconnected, RequestEntityTooLarge):
+            pass
+        except Exception as e:  # noqa: BLE001
+            rec.violation(f"C09/unrelated-exception:{type(e).__name__}", f"nested stream: {e!r}; {case}", case, monitor="exception-type")
+            continue
+        try:
+            got += outer.read()
+        except (ClientDisconnected, RequestEntityTooLarge):
+            pass
+        except Exception as e:  # noqa: BLE001
+            rec.violation(f"C09/unrelated-exception:{type(e).__name__}", f"outer stream after a nested read: {e!r}; {case}", case, monitor="exception-type")
+            continue
+        if u.pos > L:
+            rec.violation("C09/over-read-underlying", f"nested + outer reads consumed {u.pos} bytes, the outer limit is {L}; {case}", case, monitor="byte-accounting")
+        elif not data[:L].startswith(got):
+            rec.violation("C09/returned-bytes-not-prefix", f"nested + outer reads returned {got!r} of {data[:L]!r}; {case}", case, monitor="model")
+
+
 def world():
     from werkzeug import wsgi
 
@@ -443,6 +490,7 @@ def run(shard, rec, rng):
     cfg = TIERS[shard["_tier"]]
     if shard["kind"] == "input_stream":
         run_input_stream(W, rec)
+        nested_streams(W, rec)
         reach.finish()
         contracts.report(rec)
         return
